@@ -1410,6 +1410,7 @@ func (in *inst) cutHeader(n *vnode, l *loopInfo, edges []*vedge, conds []string)
 	// inv-init
 	ce := in.headerEnv(n, l, pin, st)
 	ce.pre = st
+	ce.prevars = ce.vars
 	for _, iv := range ls.Invariants {
 		t := ce.evalGoal(iv.Expr)
 		fv.oblige(fmt.Sprintf("%s#inv-init:%s@loop%d", funcKey(in.fn), iv.Name, l.ord), "inv-init", in.propsFor(iv), st.reach, t, iv.Expr, l.header.Instrs[0].Pos())
@@ -1472,6 +1473,7 @@ func (in *inst) cutHeader(n *vnode, l *loopInfo, edges []*vedge, conds []string)
 	}
 	ce2 := in.headerEnv(n, l, pnew, st)
 	ce2.pre = pre
+	ce2.prevars = ce.vars
 	for _, iv := range ls.Invariants {
 		fv.assume(st.reach, ce2.evalAssume(st.reach, iv.Expr))
 	}
@@ -1492,7 +1494,7 @@ func (in *inst) cutHeader(n *vnode, l *loopInfo, edges []*vedge, conds []string)
 	for k, v := range ce2.vars {
 		snapVars[k] = v
 	}
-	in.hdrState[l] = &hdrSnap{st: st.clone(), vars: snapVars, pre: pre, keys: keys, anything: anything}
+	in.hdrState[l] = &hdrSnap{st: st.clone(), vars: snapVars, pre: pre, prevars: ce.vars, keys: keys, anything: anything}
 }
 
 func (in *inst) invStep(n *vnode, edges []*vedge, conds []string) {
@@ -1516,6 +1518,7 @@ func (in *inst) invStep(n *vnode, edges []*vedge, conds []string) {
 	ce.it0 = snap.st
 	ce.it0vars = snap.vars
 	ce.pre = snap.pre
+	ce.prevars = snap.prevars
 	for _, lt := range ls.Lets {
 		ce.vars[lt[0]] = snap.vars[lt[0]]
 	}
